@@ -166,7 +166,10 @@ reg('C33', engine='llsym+pysym',
          'types, _Bool, float, double and two multi-argument functions; integer constants of 10 types in checked / unchecked / '
          'static-const form for every compiler value; the generic engine\'s constant shim + the real _load_constant (symbolic '
          'ints) rebuild the compiler\'s value; its calls go through the libffi path (C13\'s obligation, cross-included); the '
-         'layout list of a partial struct reaches tp.fixedlayout unchanged in both engines.',
+         'layout list of a partial struct reaches tp.fixedlayout unchanged in both engines and model.finish_backend_type hands every '
+         'field to the backend under its own name, declared type (a [...] array with the implied length) and reported offset; '
+         'complete structs are accepted iff every reported number agrees; an enum is accepted iff the source matches the cdef; '
+         'the integer type verify() guesses for an enum equals the compiler\'s choice for every pair of values.',
     note='Partial: pointer/char/struct/enum/callback arguments, global variables, non-integer constants, complete-struct checks '
          'and everything that needs compiling/importing the artefacts (done by the real replays for one function and two '
          'constants) are outside. Trusted: clang IR, llsym/pysym semantics, CPython contracts.',
